@@ -236,8 +236,12 @@ func routerCheck(prop string) func(m routerModel, rec *ev.Recorder) []harness.Vi
 		hres, log, err := runHarness(b, prop, m.Seed, requestBudget())
 		if err != nil {
 			if strings.Contains(log, "[build failed]") || strings.Contains(log, "cannot use") || strings.Contains(log, "undefined:") {
+				// Nothing can be observed about routing, gating or binding when the routers do not build. The shapes known
+				// to produce uncompilable code are kept out of this lab's profile, so on the unchanged tree this never
+				// happens; when it does, the run decides nothing (C09 is the property that is broken).
 				rec.Label("generated-code-does-not-compile (reported under C09)", 1)
 				rec.SetExtra("last_compile_error", tail(log, 1500))
+				rec.Inconclusive("the generated routers of a project do not compile, so no request could be sent (C09's business): " + tail(log, 400))
 				return nil
 			}
 			rec.Inconclusive("harness run: " + err.Error() + "\n" + tail(log, 1500))
@@ -423,7 +427,28 @@ func c09Generate(p *projgen.Project, rec *ev.Recorder) (status string, fails []c
 	add := func(sig, format string, a ...any) {
 		fails = append(fails, c09Failure{"C09:" + sig, fmt.Sprintf(format, a...) + "\n" + p.Describe()})
 	}
-	for _, e := range projgen.Engines {
+	// One more file, written by the real `gleece generate spec-and-routes` for one engine (a function of the project): the
+	// command emits several artefacts from one analysis result, in its own order, which the library calls above do not.
+	engines := append([]string(nil), projgen.Engines...)
+	if bin, berr := lab.BuildCLI(""); berr == nil {
+		pb, _ := json.Marshal(p)
+		e := projgen.Engines[int(ev.Hash(string(pb))%uint64(len(projgen.Engines)))]
+		cfg := p.Config
+		cfg.Engine, cfg.RoutesOut, cfg.AuthPkg = e, "./routes_"+e+"cli/gleece.go", projgen.Module+"/auth"+e
+		doc, _ := json.MarshalIndent(cfg.ConfigJSON(), "", "\t")
+		_ = os.WriteFile(filepath.Join(dir, "gleece.cli.json"), doc, 0o644)
+		cli := lab.RunCLI(bin, dir, 3*time.Minute, nil, "generate", "spec-and-routes", "-c", "./gleece.cli.json")
+		if out, rerr := os.ReadFile(filepath.Join(dir, "routes_"+e+"cli", "gleece.go")); !cli.TimedOut && cli.Exit == 0 && rerr == nil {
+			res.Routes[e+"cli"] = out
+			engines = append(engines, e+"cli")
+			if rec != nil {
+				rec.Label("cli-written-routes-file-checked", 1)
+			}
+		} else if rec != nil {
+			rec.Label("cli-did-not-write-routes", 1)
+		}
+	}
+	for _, e := range engines {
 		src, ok := res.Routes[e]
 		if !ok {
 			if res.RoutesErr[e] != nil {
